@@ -1,9 +1,15 @@
-(** Property C18 - unit and time conversions.  Statements only; proofs are in
-    Thm/Units.v and Thm/Time64.v. *)
-From Dino Require Import Base.Ops Base.Sums Base.Inst Model.Units Thm.Units.
-From Coq Require Import Qcanon.
+(** Property C18 - unit and time conversions are mutually inverse and
+    multiplicative.  Statements only; proofs are in Thm/Units.v (unit algebra for
+    every field, phase reduction over the reals) and Thm/Time64.v (binary64
+    round trips on the primitive-float model, through Flocq). *)
+From Dino Require Import Base.Ops Base.Sums Base.Inst Model.Units Thm.Units Model.Time64 Thm.Time64.
+From Coq Require Import Qcanon Reals.
+From Flocq Require Import Raux Generic_fmt Round_NE.
 Local Open Scope F_scope.
 
+(** Part A.  [U] named units with conversion factors [cv] and dimension vectors
+    [ud] (pint's registry as a table); [n] base dimensions with scales [sc].
+    All factors and scales non-zero; otherwise arbitrary, in an arbitrary field. *)
 Section C18_units.
   Context {F : Type} {o : Ops F} {Fc : FieldC o}.
   Variable U : nat.
@@ -13,11 +19,149 @@ Section C18_units.
   Variable n : nat.
   Variable sc : nat -> F.
   Hypothesis sc_nz : forall i, (i < n)%nat -> sc i <> 0.
+  Notation nondim := (nondim U cv ud n sc).
+  Notation dimen := (dimen U cv ud n sc).
 
+  (** dimensionalize(nondimensionalize(q), u') is the quantity q for every unit
+      u' of the same dimension (equal values in base units) *)
   Theorem C18_dim_nondim_inverse m e e' :
     (forall i, (i < n)%nat -> dimof U ud e i = dimof U ud e' i) ->
-    base_value U cv (dimen U cv ud n sc (nondim U cv ud n sc m e) e') e' = base_value U cv m e.
-  Proof. exact (dim_nondim_inverse U cv ud cv_nz n sc sc_nz m e e'). Qed.
+    base_value U cv (dimen (nondim m e) e') e' = base_value U cv m e.
+  Proof. intros; eapply dim_nondim_inverse; eassumption. Qed.
+
+  (** ... in the unit it was expressed in, the magnitude itself; and conversely *)
+  Theorem C18_dim_nondim_same m v e : dimen (nondim m e) e = m /\ nondim (dimen v e) e = v.
+  Proof. split; [eapply dim_nondim_same | eapply nondim_dim_inverse]; eassumption. Qed.
+
+  Theorem C18_nondim_unit_independent m e m' e' :
+    (forall i, (i < n)%nat -> dimof U ud e i = dimof U ud e' i) ->
+    base_value U cv m e = base_value U cv m' e' ->
+    nondim m e = nondim m' e'.
+  Proof. intros; eapply nondim_unit_independent; eassumption. Qed.
+
+  Theorem C18_nondim_mul m1 e1 m2 e2 : nondim (m1 * m2) (umul e1 e2) = nondim m1 e1 * nondim m2 e2.
+  Proof. eapply nondim_mul; eassumption. Qed.
+
+  Theorem C18_nondim_div m1 e1 m2 e2 : m2 <> 0 -> nondim (m1 / m2) (udiv e1 e2) = nondim m1 e1 / nondim m2 e2.
+  Proof. intros; eapply nondim_div; eassumption. Qed.
+
+  Theorem C18_nondim_pow m e k : m <> 0 -> nondim (zpow m k) (upow e k) = zpow (nondim m e) k.
+  Proof. intros; eapply nondim_pow; eassumption. Qed.
+
+  (** a value is produced (no ValueError) iff every dimension of the unit has a scale *)
+  Theorem C18_nondim_defined_iff_scales_present has m e :
+    (exists v, nondim_opt U cv ud n has sc m e = Some v) <->
+    forall i, (i < n)%nat -> has i = true \/ dimof U ud e i = 0%Z.
+  Proof. eapply nondim_opt_defined. Qed.
+
+  (** a rate per unit [e] times the non-dimensional length of one [e] is the bare
+      number (2 pi / day times one day = one full turn) *)
+  Theorem C18_rate_times_period p e : nondim p (upow e (-1)) * nondim 1 e = p.
+  Proof. eapply rate_times_period; eassumption. Qed.
 End C18_units.
 
+(** the same over the reals *)
+Theorem C18_units_R U (cv : nat -> R) ud n (sc : nat -> R) m e e' m' :
+  (forall j, (j < U)%nat -> cv j <> 0%R) -> (forall i, (i < n)%nat -> sc i <> 0%R) ->
+  (forall i, (i < n)%nat -> dimof U ud e i = dimof U ud e' i) ->
+  (dimen U cv ud n sc (nondim U cv ud n sc m e) e' * conv U cv e' = m * conv U cv e)%R /\
+  ((m * conv U cv e = m' * conv U cv e')%R -> nondim U cv ud n sc m e = nondim U cv ud n sc m' e').
+Proof.
+  intros Hc Hs Hd. split.
+  - eapply (@dim_nondim_inverse R ROps RFieldC); eassumption.
+  - intros Hb. eapply (@nondim_unit_independent R ROps RFieldC); eassumption.
+Qed.
+
+(** Part B (binary64, bit-exact model of the current code).  [T_ok T]: the time
+    scale is a finite binary64 number in [2^-100, 2^100] seconds. *)
+Theorem C18_time_roundtrips (T : Coq.Floats.PrimFloat.float) :
+  T_ok T ->
+  (** whole-second durations: nondimensionalize_timedelta64 then dimensionalize_timedelta64 *)
+  (forall s : Z, (Z.abs s < 2 ^ 40)%Z -> dim_td T (nondim_td T s) = s) /\
+  (** calendar times, [M] minutes since the reference datetime (|M| < 2^40 is two
+      million years): datetime64_to_nondim_time then nondim_time_to_datetime64 *)
+  (forall M : Z, (Z.abs M < 2 ^ 40)%Z -> dim_dt T (nondim_dt T M) = M).
+Proof.
+  intros HT. split; [exact (fun s => timedelta_roundtrip T s HT) | exact (fun M => datetime_roundtrip_minutes T M HT)].
+Qed.
+
+(** the two clauses by name (projections of the theorem above) *)
+Corollary C18_timedelta_roundtrip (T : Coq.Floats.PrimFloat.float) (s : Z) :
+  T_ok T -> (Z.abs s < 2 ^ 40)%Z -> dim_td T (nondim_td T s) = s.
+Proof. intros HT. exact (proj1 (C18_time_roundtrips T HT) s). Qed.
+
+Corollary C18_datetime_roundtrip_minutes (T : Coq.Floats.PrimFloat.float) (M : Z) :
+  T_ok T -> (Z.abs M < 2 ^ 40)%Z -> dim_dt T (nondim_dt T M) = M.
+Proof. intros HT. exact (proj2 (C18_time_roundtrips T HT) M). Qed.
+
+(** the formula before commit 93ce349 (truncation without the millisecond snap):
+    27 s comes back as 26 s under the default scale *)
+Theorem C18_old_code_refuted :
+  T_ok T_default /\ exists s : Z, (Z.abs s < 2 ^ 40)%Z /\ dim_td_old T_default (nondim_td T_default s) <> s.
+Proof.
+  split; [exact T_default_ok|]. exists 27%Z. split; [reflexivity|].
+  change (dim_td_old T_default (nondim_td T_default 27)) with (td_roundtrip_old T_default 27).
+  rewrite old_code_refuted. discriminate.
+Qed.
+
+Theorem C18_snap_ms_R (dt : R) (s : Z) :
+  (Rabs (dt - IZR s) <= / 4096)%R -> Ztrunc (IZR (ZnearestE (dt * 1000)) / 1000) = s.
+Proof. exact (snap_ms_R dt s). Qed.
+
+(** Part C (over the reals): [x - floor(x / p) * p]. *)
+Theorem C18_phase_reduced (p x : R) : (0 < p)%R ->
+  (0 <= @reduce R ROps Zfloor p x < p)%R /\ exists k : Z, @reduce R ROps Zfloor p x = (x - IZR k * p)%R.
+Proof. exact (phase_reduced p x). Qed.
+
+Theorem C18_phase_unique (p x y : R) (k : Z) : (0 < p)%R -> (0 <= y < p)%R -> (x - y = IZR k * p)%R ->
+  y = @reduce R ROps Zfloor p x.
+Proof. exact (phase_unique p x y k). Qed.
+
+(** phase(t + dt) = phase(t) + rate * dt reduced: consistent with elapsed time *)
+Theorem C18_phase_advance (p ref rate t dt : R) : (0 < p)%R ->
+  @phase_at R ROps Zfloor p ref rate (t + dt)%R
+  = @reduce R ROps Zfloor p (@phase_at R ROps Zfloor p ref rate t + rate * dt)%R.
+Proof. exact (phase_advance p ref rate t dt). Qed.
+
+Theorem C18_phase_period (p ref rate t dt : R) (k : Z) : (0 < p)%R -> (rate * dt = IZR k * p)%R ->
+  @phase_at R ROps Zfloor p ref rate (t + dt)%R = @phase_at R ROps Zfloor p ref rate t.
+Proof. exact (phase_full_turns p ref rate t dt k). Qed.
+
+(** Non-vacuity: a concrete unit table (meter, kilometer, second, hour) and
+    scale (Earth radius, 6857 s) over Qc meet the hypotheses, g = 9.8 m/s^2
+    expressed in km/hour^2 has the same non-dimensional value, and the default
+    time scale is admissible. *)
+Example C18_hyps_satisfiable :
+  let cv := fun j : nat => Q2Qc (nth j [1; 1000; 1; 3600]%Q 0%Q) in
+  let ud := fun j i : nat => nth i (nth j [[1; 0]; [1; 0]; [0; 1]; [0; 1]]%Z []) 0%Z in
+  let sc := fun i : nat => Q2Qc (nth i [6371220; 6857]%Q 0%Q) in
+  let e1 := fun j : nat => nth j [1; 0; -2; 0]%Z 0%Z in
+  let e2 := fun j : nat => nth j [0; 1; 0; -2]%Z 0%Z in
+  (forall j, (j < 4)%nat -> cv j <> 0) /\ (forall i, (i < 2)%nat -> sc i <> 0) /\
+  nondim 4 cv ud 2 sc (Q2Qc (98 # 10)) e1 = nondim 4 cv ud 2 sc (Q2Qc (127008 # 1)) e2 /\
+  T_ok T_default.
+Proof.
+  cbv zeta. split; [|split; [|split]].
+  - intros j Hj. destruct j as [|[|[|[|j]]]]; try lia; intro H; discriminate H.
+  - intros i Hi. destruct i as [|[|i]]; try lia; intro H; discriminate H.
+  - apply Qc_is_canon. vm_compute. reflexivity.
+  - exact T_default_ok.
+Qed.
+
 Print Assumptions C18_dim_nondim_inverse.
+Print Assumptions C18_dim_nondim_same.
+Print Assumptions C18_nondim_unit_independent.
+Print Assumptions C18_nondim_mul.
+Print Assumptions C18_nondim_div.
+Print Assumptions C18_nondim_pow.
+Print Assumptions C18_nondim_defined_iff_scales_present.
+Print Assumptions C18_rate_times_period.
+Print Assumptions C18_units_R.
+Print Assumptions C18_time_roundtrips.
+Print Assumptions C18_old_code_refuted.
+Print Assumptions C18_snap_ms_R.
+Print Assumptions C18_phase_reduced.
+Print Assumptions C18_phase_unique.
+Print Assumptions C18_phase_advance.
+Print Assumptions C18_phase_period.
+Print Assumptions C18_hyps_satisfiable.
